@@ -183,6 +183,7 @@ def cache_groups():
     from typelib.unmarshals import api as uapi
     g = {"strload": [serdes.strload], "isoformat": [serdes.isoformat], "dateparse": [serdes.dateparse],
          "factories": [graph.static_order, uapi.unmarshaller, mapi.marshaller, codecs.codec]}
+    g = {k: [f for f in fs if hasattr(f, "cache_clear")] for k, fs in g.items()}
     from typelib.py import inspection
     insp = {id(v) for v in vars(inspection).values() if hasattr(v, "cache_clear")}
     g["inspection"] = [f for f in all_caches() if id(f) in insp]
